@@ -12,7 +12,7 @@
    ([mkU] / [child_data] / [data_rest] / [vine_data_of] and [clip_h]; [edge_lik]; [tree_lik]; [vine_lik]).  This file is
    copied into the build directory and compiled on every run against the freshly generated file. *)
 From Coq Require Import List Arith ZArith QArith Lia Bool Reals.
-From Cop Require Import Lib.FinGraph Model.Vine Model.VineData Spec.VineSets Spec.VineClip Spec.VineLikProofs
+From Cop Require Import Lib.FinGraph Model.Vine Model.VineData Spec.VineDefs Spec.VineSets Spec.VineClip Spec.VineLikProofs
      Lib.PySet Lib.PyCols.
 From CopRun Require Import Gen_vinekernel Gen_vinedata.
 Import ListNotations.
@@ -363,3 +363,87 @@ Print Assumptions C17_bridge_VineCopula_get_likelihood.
 Theorem C17_bridge_VineCopula_get_likelihood_unfitted :
   forall (v : list (list edge)) (M : pymat), gen_VineCopula_get_likelihood false v M = None.
 Proof. reflexivity. Qed.
+
+(* ================================================================== *)
+(** * 5. VineCopula._sample_row: the edge search and one level of the chain of inverse h-functions *)
+(* `condition.issubset(visit_set)` with condition = set(edge.D) + L + R and visit_set = set(visited) + current *)
+Lemma issubset_U (e : edge) (current : nat) (visited : list nat) :
+  py_issubset (py_set_add (py_set_add (py_set_of (e_D e)) (e_L e)) (e_R e)) (py_set_add (py_set_of visited) current)
+  = forallb (fun x => memb x (current :: visited)) (U e).
+Proof.
+  unfold py_issubset, py_set_add, py_set_of, U.
+  assert (Hm : forall x, memb x (visited ++ [current]) = memb x (current :: visited)).
+  { intros x. apply eq_true_iff_eq. rewrite !memb_In, in_app_iff. simpl. tauto. }
+  apply eq_true_iff_eq. rewrite !forallb_forall. split; intros H x Hx.
+  - rewrite <- Hm. apply H. rewrite !in_app_iff. simpl in *. tauto.
+  - rewrite Hm. apply H. rewrite !in_app_iff in Hx. simpl in *. tauto.
+Qed.
+
+(* the search `for edge in current_tree:` started with current_ind = -1 IS the model's find_edge0 / find_edgek
+   (None = the -1 left in current_ind) *)
+Theorem C17_bridge_sample_find_edge :
+  forall (i current : nat) (visited : list nat) (T : list edge),
+  gen_sample_find_edge i current visited T py_minus_one
+  = (if i =? 0 then find_edge0 T current (hd 0 visited) else find_edgek T current visited).
+Proof.
+  intros i current visited T. unfold gen_sample_find_edge, py_minus_one, py_int, py_head0.
+  destruct (i =? 0).
+  - unfold find_edge0. induction T as [|e T IH]; [reflexivity|]. cbn [py_for_break find].
+    destruct (((e_L e =? current) && (e_R e =? hd 0 visited)) || ((e_R e =? current) && (e_L e =? hd 0 visited)));
+      [reflexivity | exact IH].
+  - unfold find_edgek. induction T as [|e T IH]; [reflexivity|]. cbn [py_for_break find].
+    destruct ((e_L e =? current) || (e_R e =? current)); [|exact IH].
+    rewrite issubset_U. destruct (forallb (fun x => memb x (current :: visited)) (U e)); reflexivity.
+Qed.
+Print Assumptions C17_bridge_sample_find_edge.
+
+(* one iteration of `for i in range(itr - 1, -1, -1):` IS one unfolding of the model's level_loop.  Hypothesis: in the
+   tree looked at, Edge.index = position in the edge list (Spec.VineDefs.idx_ok, proved for every tree train_vine builds):
+   the source looks the copula up by POSITION `current_tree[current_ind]`, the model names it by the index found *)
+Theorem C17_bridge_sample_level_step :
+  forall (trees : list (list edge)) (trunc itr current : nat) (visited : list nat) (i : nat) (rest : list nat)
+         (tmp : option sterm),
+  (forall T, nth_error trees i = Some T -> Spec.VineDefs.idx_ok T) ->
+  level_loop trees trunc itr current visited (i :: rest) tmp
+  = match gen_sample_level_step trees trunc itr current visited i tmp with
+    | None => None
+    | Some tmp' => level_loop trees trunc itr current visited rest tmp'
+    end.
+Proof.
+  intros trees trunc itr current visited i rest tmp Hidx.
+  cbn [level_loop]. unfold gen_sample_level_step.
+  destruct (trunc <=? i); [reflexivity|].
+  unfold py_trees_get. destruct (nth_error trees i) as [T|] eqn:ET; [|reflexivity].
+  cbn [to_edges]. rewrite C17_bridge_sample_find_edge. unfold pyint.
+  destruct (if i =? 0 then find_edge0 T current (hd 0 visited) else find_edgek T current visited) as [ci|];
+    cbn [py_int_ne_minus_one py_index_int]; [|reflexivity].
+  destruct (nth_error T ci) as [e|] eqn:Ee; [|reflexivity].
+  unfold py_edge_copula, py_percent_point, py_sample_clip, py_unis, py_head0. cbn [fst snd].
+  rewrite (Hidx T eq_refl ci e Ee).
+  destruct (i =? itr - 1); [reflexivity|]. destruct tmp; reflexivity.
+Qed.
+Print Assumptions C17_bridge_sample_level_step.
+
+(* hence the whole inner loop of the model is the fold of the generated iteration over range(itr - 1, -1, -1) *)
+Corollary C17_gen_level_loop :
+  forall (trees : list (list edge)) (trunc itr current : nat) (visited : list nat) (levels : list nat) (tmp : option sterm),
+  (forall i T, In i levels -> nth_error trees i = Some T -> Spec.VineDefs.idx_ok T) ->
+  level_loop trees trunc itr current visited levels tmp
+  = py_fold_opt (gen_sample_level_step trees trunc itr current visited) levels tmp.
+Proof.
+  intros trees trunc itr current visited levels. induction levels as [|i rest IH]; intros tmp H; [reflexivity|].
+  rewrite C17_bridge_sample_level_step by (intros T; apply H; left; reflexivity).
+  cbn [py_fold_opt]. destruct (gen_sample_level_step trees trunc itr current visited i tmp) as [tmp'|]; [|reflexivity].
+  apply IH. intros j T Hj. apply H. right. exact Hj.
+Qed.
+
+Corollary C17_gen_level_loop_range :
+  forall (trees : list (list edge)) (trunc itr current : nat) (visited : list nat) (tmp : option sterm),
+  (forall i T, i < itr -> nth_error trees i = Some T -> Spec.VineDefs.idx_ok T) ->
+  level_loop trees trunc itr current visited (rev (seq 0 itr)) tmp
+  = py_fold_opt (gen_sample_level_step trees trunc itr current visited) (py_range_down itr) tmp.
+Proof.
+  intros trees trunc itr current visited tmp H. apply C17_gen_level_loop.
+  intros i T Hi. apply H. apply in_rev in Hi. apply in_seq in Hi. lia.
+Qed.
+Print Assumptions C17_gen_level_loop_range.
